@@ -190,11 +190,22 @@ def run_pool(worker, cfgs, report, procs=None, chunksize=1, progress_every=0):
     budget = check_budget_s()
     with ctxm.Pool(procs, initializer=_init_worker, maxtasksperchild=200) as pool:
         n = 0
-        it = pool.imap_unordered(worker, cfgs, chunksize=chunksize)
+        # chunks are dispatched as single tasks so that the result iterator supports a timeout (the per-check wall-clock budget)
+        chunks = [cfgs[i:i + max(1, chunksize)] for i in range(0, len(cfgs), max(1, chunksize))]
+        it = pool.imap_unordered(_ChunkRunner(worker), chunks)
+        pending = []
         while True:
+            if pending:
+                r = pending.pop(); 
+                report.add(r); n += 1
+                if progress_every and n % progress_every == 0:
+                    print(f'  .. {n}/{len(cfgs)} configurations, {time.time() - report.t0:.0f}s', flush=True)
+                continue
             left = budget - (time.time() - report.t0)
             try:
-                r = it.next(timeout=max(1.0, left))
+                if left <= 0: raise mp.TimeoutError()
+                pending = list(it.next(timeout=max(1.0, left)))
+                continue
             except StopIteration:
                 break
             except mp.TimeoutError:
@@ -204,9 +215,11 @@ def run_pool(worker, cfgs, report, procs=None, chunksize=1, progress_every=0):
                 print(f'  .. wall-clock budget of {budget} s used up after {n}/{len(cfgs)} configurations: the rest is unexplored', flush=True)
                 pool.terminate()
                 break
-            report.add(r); n += 1
-            if progress_every and n % progress_every == 0:
-                print(f'  .. {n}/{len(cfgs)} configurations, {time.time() - report.t0:.0f}s', flush=True)
+
+
+class _ChunkRunner:
+    def __init__(s, worker): s.worker = worker
+    def __call__(s, chunk): return [s.worker(c) for c in chunk]
 
 
 def check_budget_s():
